@@ -82,8 +82,9 @@ PROPS["C09"] = dict(
     scope="Safety core as step contracts: RetransEntry::{new,pre_send} (budget: Ok iff attempts left, Err(TxTimeout) once used up, nothing else changes), "
           "ReliableMessage::{pre_send,post_recv,flags} (no success after give-up; an ack for another counter changes nothing; a matching ack clears the "
           "retransmission; a reliable message is acknowledged with exactly its counter), ExchangeState and Session::pre_send wrappers (retransmission "
-          "reuses the stored counter and consumes none), back-off arithmetic and Session::rx_timeout_ms ladders.",
-    verus=[],
+          "reuses the stored counter and consumes none), back-off arithmetic and Session::rx_timeout_ms ladders. The back-off arithmetic is a Verus unit: "
+          "backoff_ms equals the protocol formula with its integer floors, overflow-free up to 6 attempts, monotone in attempt number and jitter.",
+    verus=["mrp"],
     functions=[],
     trusted=["embassy_time::Instant::now stubbed (time is a universally quantified input)", "RxCtrState window contract is C04's",
              "RetransEntry values outside mrp.rs are built through a layout-checked mirror struct"],
